@@ -27,7 +27,7 @@ RULE = ("programs from the typed generator; per graph (fused and unfused): fifo,
 ASSUMPTIONS = ["user functions in the workload are pure", "rows inside disk-shuffled partitions are unordered"]
 CONFIG = {
     "quick": {"budget_s": 50, "programs": 260, "orders": 6, "thread_cfgs": [(2, 1), (4, 2), (16, 3)], "case_timeout_s": 90},
-    "thorough": {"budget_s": 600, "programs": 600, "orders": 20, "thread_cfgs": [(1, 0), (2, 1), (4, 2), (8, 3), (16, 4), (16, 5)], "case_timeout_s": 240},
+    "thorough": {"budget_s": 600, "programs": 300, "orders": 20, "thread_cfgs": [(1, 0), (2, 1), (4, 2), (8, 3), (16, 4), (16, 5)], "case_timeout_s": 240},
 }
 TIER = {"t": "quick"}
 
